@@ -506,4 +506,24 @@ theorem netlist_count_raises {a b : CNetlist} (hdiff : b.libs.length ≠ a.libs.
     simp only [compare, compareWith, andThen_ok, check_ok, beq_iff_eq] at h
     exact hdiff h.2.2.2.1.symm
 
+/-- the number of pins of one wire changes — a connection is added to a net, dropped from it, or moved to
+    another net (of this or of another cable): the copy's definition `D'` is arbitrary except that it
+    keeps the definition's name, has unique cable names, and contains a cable named like `C` whose wire
+    `wi` lists another number of pins -/
+theorem wire_pincount_raises {a : CNetlist} {li di ci ci' wi : Nat} {L : CLib} {D D' : CDef} {C C' : CCable}
+    {w w' : List CPin}
+    (hN : Named a) (hU : UniqueNames a) (hA : NoAssign a) (hK : PropKeys a)
+    (hat : At a li di L D) (hname : D'.name = D.name) (hndC' : (namesOf (·.name) D'.cables).Nodup)
+    (hC : D.cables[ci]? = some C) (hC' : D'.cables[ci']? = some C') (hcn : C'.name = C.name)
+    (hw : C.wires[wi]? = some w) (hw' : C'.wires[wi]? = some w') (hne : w'.length ≠ w.length) :
+    ∃ fam, compare a (setDef a li di D') = .error fam := by
+  apply def_mutation_raises hN hU hA hK hat hname
+  intro h
+  obtain ⟨⟨_, hnc, _⟩, ⟨_, hndc, _⟩⟩ := defFacts hN hU hat
+  obtain ⟨cn, hcn'⟩ := named_get hnc hC
+  have := congrArg (fun v : DefView => (v.cable cn).bind fun ws => (ws[wi]?).map List.length) h
+  simp only [defView, byName_get hndc hC hcn', byName_get hndC' hC' (hcn.trans hcn'), Option.map_some,
+    Option.bind_some, cableView, List.getElem?_map, hw, hw', List.length_map, Option.some.injEq] at this
+  exact hne this.symm
+
 end Spydr.Compare
